@@ -68,6 +68,7 @@ inductive AV where
   | found (layer : Name) (s : Slot) (k : Key)   -- value stored under `k` in that layer's data / `@meta`
   | core (m : CoreMod) (k : Key)      -- a core-library function
   | key (k : Key)                     -- key string handed to `@access` / `@access_assign`
+  | native                            -- a native function (e.g. a `#[koto_method]` wrapper)
   | builtin                           -- computed by a built-in arm (not modelled here)
   | shown (pre : Option TyName)       -- default map rendering `[Type ]{…}`
   | ty (t : TyName)                   -- a type string
@@ -201,7 +202,14 @@ def Opd.av : Opd → AV
   | .map m => m.av
   | .host h => h.av
 
+/-- functions of a `#[koto_impl]` block (crates/derive) -/
+inductive DFn where
+  | getOverride | getFallback | setOverride | setFallback
+  | method (f : Nat) | getter (f : Nat) | setter (f : Nat)     -- `f`: which Rust function
+  deriving DecidableEq, Repr, Inhabited
+
 inductive EvKey where
+  | dv (f : DFn)
   | mk (k : MKey)
   | host (m : HM)
   | copy                      -- `KotoCopy::copy` of a host object
@@ -224,6 +232,7 @@ inductive Err where
   | thrown             -- the callee's other error reaches the script
   | hostErr            -- the host method's other error reaches the script
   | notFound
+  | unexpectedKey      -- derived `access_assign` without setter / fallback: "unexpected key: …"
   | oob
   | noIndex
   | iterThrown         -- an error thrown inside `@next` during `for`: re-raised as its *message*
@@ -431,8 +440,10 @@ def arith (op : ArithOp) (lhs rhs : Opd) : Out :=
   | .prim _, _ => rhsDirect op lhs rhs
 
 /-- `run_compound_assign_op!`. The value of the variable afterwards is still the left operand
-(the callee's result is discarded). -/
-def compound (op : ArithOp) (lhs rhs : Opd) : Out :=
+(the callee's result is discarded). `same`: both operands are the *same instance* (`x op= x`);
+only then — guard `o.is_same_instance(o2)` — a host right operand is copied first, because the left
+one is about to be borrowed mutably. -/
+def compound (op : ArithOp) (lhs rhs : Opd) (same : Bool) : Out :=
   match lhs, rhs with
   | .prim .num, .prim .num => ⟨[], .ok .builtin⟩
   | .map m, _ =>
@@ -443,27 +454,25 @@ def compound (op : ArithOp) (lhs rhs : Opd) : Out :=
       | (t, r) => ⟨t, r.pass⟩
     | Option.none => ⟨[], .err (.binop op.akey)⟩
   | .host h, .host h2 =>
-    -- guard `o2.is_same_instance(o2)` is always true: the right operand is copied for every pair
-    let c : HostD := { h2 with gen := h2.gen + 1 }
-    let cp : Ev := ⟨h2.name, .copy, h2.av, []⟩
-    match h.call op.ahm [c.av] with
-    | (t, .ok _) => ⟨cp :: t, .ok lhs.av⟩
-    | (t, r) => ⟨cp :: t, r.pass⟩
+    if same then
+      let c : HostD := { h2 with gen := h2.gen + 1 }
+      let cp : Ev := ⟨h2.name, .copy, h2.av, []⟩
+      match h.call op.ahm [c.av] with
+      | (t, .ok _) => ⟨cp :: t, .ok lhs.av⟩
+      | (t, r) => ⟨cp :: t, r.pass⟩
+    else
+      match h.call op.ahm [rhs.av] with
+      | (t, .ok _) => ⟨t, .ok lhs.av⟩
+      | (t, r) => ⟨t, r.pass⟩
   | .host h, _ =>
     match h.call op.ahm [rhs.av] with
     | (t, .ok _) => ⟨t, .ok lhs.av⟩
     | (t, r) => ⟨t, r.pass⟩
   | .prim _, _ => ⟨[], .err (.binop op.akey)⟩
 
-/-- what the guard was evidently meant to be (`o.is_same_instance(o2)`): copy only for `x op= x` -/
-def compoundIntended (op : ArithOp) (lhs rhs : Opd) (sameInstance : Bool) : Out :=
-  match lhs, rhs with
-  | .host h, .host _ =>
-    if sameInstance then compound op lhs rhs
-    else match h.call op.ahm [rhs.av] with
-      | (t, .ok _) => ⟨t, .ok lhs.av⟩
-      | (t, r) => ⟨t, r.pass⟩
-  | _, _ => compound op lhs rhs
+/-- the decision list before fix 6cd88dc (guard `o2.is_same_instance(o2)`, always true): every host
+right operand was copied. Kept only to state what the fix changed (finding F-C17-1). -/
+def compoundBeforeFix (op : ArithOp) (lhs rhs : Opd) : Out := compound op lhs rhs true
 
 /-! ### comparisons -/
 
@@ -1034,6 +1043,73 @@ def debug : Opd → Out
       needStr t r
     | Option.none => displayNested (.map m)
   | o => displayNested o
+
+/-! ### `#[koto_impl]` access tables (crates/derive/src/koto_impl.rs)
+
+The generated `KotoAccess::access` is an ordered list: `#[koto_get_override]` (if it answers),
+the table of `#[koto_method]`s / `#[koto_get]`s (names and aliases), `#[koto_get_fallback]`, else
+`Ok(None)` — which `run_access_inner` turns into the "not found" error. `access_assign`:
+`#[koto_set_override]`, the `#[koto_set]` table, `#[koto_set_fallback]`, else "unexpected key". -/
+
+structure DerivedD where
+  name : Name
+  methods : List (Key × Nat) := []        -- access key ↦ Rust function (aliases share the function)
+  getters : List (Key × Nat) := []
+  setters : List (Key × Nat) := []
+  getOverride : Option (List Key) := none -- present; answers `Some` for these keys
+  getFallback : Option (List Key) := none
+  setOverride : Option (List Key) := none -- present; returns `true` for these keys
+  setFallback : Option (List Key) := none -- present; accepts these keys, errors on others
+  deriving DecidableEq, Repr, Inhabited
+
+def DerivedD.av (d : DerivedD) : AV := .host d.name 0
+
+def DerivedD.ev (d : DerivedD) (f : DFn) (args : List AV) : Ev := ⟨d.name, .dv f, d.av, args⟩
+
+/-- generated `access`, as used by `run_access_inner` (Object arm; the object is not iterable) -/
+def derivedAccess (d : DerivedD) (k : Key) : Out :=
+  let ov : List Ev := match d.getOverride with
+    | some _ => [d.ev .getOverride [.key k]]
+    | Option.none => []
+  if (d.getOverride.getD []).contains k then ⟨ov, .ok (.int 55)⟩
+  else
+    match d.methods.lookup k with
+    | some _ => ⟨ov, .ok .native⟩
+    | Option.none =>
+      match d.getters.lookup k with
+      | some f => ⟨ov ++ [d.ev (.getter f) []], .ok (.int 88)⟩
+      | Option.none =>
+        match d.getFallback with
+        | some ks =>
+          if ks.contains k then ⟨ov ++ [d.ev .getFallback [.key k]], .ok (.int 66)⟩
+          else ⟨ov ++ [d.ev .getFallback [.key k]], .err .notFound⟩
+        | Option.none => ⟨ov, .err .notFound⟩
+
+/-- `x.k(7)`: the method wrapper receives `x` as instance and the call arguments -/
+def derivedMethod (d : DerivedD) (k : Key) : Out :=
+  match derivedAccess d k with
+  | ⟨t, .ok .native⟩ =>
+    match d.methods.lookup k with
+    | some f => ⟨t ++ [d.ev (.method f) [.int 7]], .ok (.int 77)⟩
+    | Option.none => ⟨t, .err .type⟩
+  | ⟨t, .ok _⟩ => ⟨t, .err .type⟩       -- a field value is not callable
+  | out => out
+
+/-- generated `access_assign` with value `5` -/
+def derivedAccessAssign (d : DerivedD) (k : Key) : Out :=
+  let ov : List Ev := match d.setOverride with
+    | some _ => [d.ev .setOverride [.key k, .int 5]]
+    | Option.none => []
+  if (d.setOverride.getD []).contains k then ⟨ov, .ok .builtin⟩
+  else
+    match d.setters.lookup k with
+    | some f => ⟨ov ++ [d.ev (.setter f) [.int 5]], .ok .builtin⟩
+    | Option.none =>
+      match d.setFallback with
+      | some ks =>
+        if ks.contains k then ⟨ov ++ [d.ev .setFallback [.key k, .int 5]], .ok .builtin⟩
+        else ⟨ov ++ [d.ev .setFallback [.key k, .int 5]], .err .hostErr⟩
+      | Option.none => ⟨ov, .err .unexpectedKey⟩
 
 /-! ### `with_meta` -/
 
